@@ -10,6 +10,8 @@ pub mod c03;
 pub mod c05;
 pub mod c09e;
 pub mod c10e;
+pub mod c12;
+pub mod c13;
 pub mod c14;
 pub mod c15;
 pub mod c16;
@@ -21,6 +23,7 @@ pub mod c19e;
 pub mod cfgcommon;
 pub mod c20;
 pub mod diffcommon;
+pub mod execcommon;
 pub mod seqcommon;
 
 pub fn by_id(id: &str) -> Option<Arc<dyn DynMonitor>> {
@@ -35,6 +38,8 @@ pub fn by_id(id: &str) -> Option<Arc<dyn DynMonitor>> {
             parts: vec![Arc::new(Erased(c16::C16)), Arc::new(Erased(c16e::C16e))],
         }),
         "C17" => Arc::new(Erased(c17::C17)),
+        "C12" => Arc::new(Erased(c12::C12)),
+        "C13" => Arc::new(Erased(c13::C13)),
         "C14" => Arc::new(Erased(c14::C14)),
         "C15" => Arc::new(Erased(c15::C15)),
         "C20" => Arc::new(Erased(c20::C20)),
